@@ -31,7 +31,7 @@ import (
 
 // Case is one replayable input.
 type Case struct {
-	Kind string `json:"kind"` // doc | execute | arith | conn
+	Kind string `json:"kind"` // doc | execute | ws | arith | conn
 	// doc / execute
 	Query   string            `json:"query,omitempty"`
 	OpName  string            `json:"op_name,omitempty"`
@@ -64,6 +64,8 @@ type harness struct {
 	model  *hx.Model
 	schema *graphql.Schema
 	apis   map[DefaultCost]*apiWorld
+
+	skippedNotes int
 }
 
 func goVars(vars map[string]VarVal) map[string]interface{} {
@@ -215,6 +217,11 @@ func oracle(c Case, p *prepared, real obs) string {
 
 // runOne evaluates one case on both sides.
 func (h *harness) runOne(c Case, p *prepared, verbose bool) *failure {
+	return h.runOneWith(c, p, verbose, "")
+}
+
+// runOneWith is runOne with the model's reply already fetched (batched by the caller) when reply != "".
+func (h *harness) runOneWith(c Case, p *prepared, verbose bool, reply string) *failure {
 	real, msgs := h.realValidate(c)
 	orc := oracle(c, p, real)
 	if verbose {
@@ -223,9 +230,12 @@ func (h *harness) runOne(c Case, p *prepared, verbose bool) *failure {
 	var mo obs
 	modelRef := ""
 	if h.model != nil {
-		reply, err := h.model.Ask(modelRequest(p.doc, c.OpName, p.varsOk, c.Max, c.Default, p.coerced))
-		if err != nil {
-			return &failure{"correspondence", "model driver failed: " + err.Error()}
+		var err error
+		if reply == "" {
+			reply, err = h.model.Ask(modelRequest(p.doc, c.OpName, p.varsOk, c.Max, c.Default, p.coerced))
+			if err != nil {
+				return &failure{"correspondence", "model driver failed: " + err.Error()}
+			}
 		}
 		mo, modelRef, err = parseModelReply(reply)
 		if err != nil {
@@ -278,14 +288,27 @@ func limitsFor(ref *big.Int, r *hx.Rand) []int {
 	return out
 }
 
-func opNamesOf(doc *ast.Document) []string {
-	names := []string{""}
+// opNamesOf: every operation name of the document, "" and an unknown name. With r != nil the two
+// names that choose no operation ("" in a multi-operation document, the unknown one) are only kept
+// now and then (they all have cost 0).
+func opNamesOf(doc *ast.Document, r *hx.Rand) []string {
+	var names []string
+	nops := 0
 	for _, d := range doc.Definitions {
-		if op, ok := d.(*ast.OperationDefinition); ok && op.Name != nil {
-			names = append(names, op.Name.Name)
+		if op, ok := d.(*ast.OperationDefinition); ok {
+			nops++
+			if op.Name != nil {
+				names = append(names, op.Name.Name)
+			}
 		}
 	}
-	return append(names, "Nope")
+	if nops == 1 || r == nil || r.Chance(1, 3) {
+		names = append([]string{""}, names...)
+	}
+	if r == nil || r.Chance(1, 6) {
+		names = append(names, "Nope")
+	}
+	return names
 }
 
 func costClass(ref *big.Int) string {
@@ -317,6 +340,10 @@ func (h *harness) evalRequest(c Case, lim *hx.Rand, record bool) (*failure, Case
 			h.run.Count("skipped:" + strings.SplitN(skip, ":", 2)[0])
 			if strings.HasPrefix(skip, "invalid") {
 				h.run.Count("skipped-because: " + skip[len("invalid-document: "):])
+				if h.skippedNotes < 3 {
+					h.skippedNotes++
+					h.run.Note("generated document rejected by the base validator (%s): %s", skip, c.Query)
+				}
 			}
 		}
 		return nil, c
@@ -353,10 +380,26 @@ func (h *harness) evalRequest(c Case, lim *hx.Rand, record bool) (*failure, Case
 	} else {
 		limits = limitsFor(nil, lim)
 	}
-	for _, max := range limits {
+	var replies []string
+	if h.model != nil {
+		lines := make([]string, len(limits))
+		pre, post := modelRequestParts(p.doc, c.OpName, p.varsOk, c.Default, p.coerced)
+		for i, max := range limits {
+			lines[i] = pre + strconv.Itoa(max) + post
+		}
+		var err error
+		if replies, err = h.model.AskAll(lines); err != nil {
+			return &failure{"correspondence", "model driver failed: " + err.Error()}, c
+		}
+	}
+	for i, max := range limits {
 		cc := c
 		cc.Max = max
-		f := h.runOne(cc, p, false)
+		reply := ""
+		if replies != nil {
+			reply = replies[i]
+		}
+		f := h.runOneWith(cc, p, false, reply)
 		if record {
 			nontrivial := p.op != nil && p.varsOk && p.refErr == nil && !p.stats.Negative && p.stats.Charged >= 2 && (p.stats.UnderMul > 0 || p.stats.ViaFrag > 0)
 			h.run.Case(fmt.Sprintf("%s|%s|%v|%v|%d", c.Query, c.OpName, c.Vars, c.Default, max), nontrivial)
@@ -434,7 +477,7 @@ func (h *harness) evalGenerated(gd *GDoc, vars map[string]VarVal, dflt DefaultCo
 		h.run.Note("generator produced unparsable text: %s: %s", perrs[0].Message, base.Query)
 		return
 	}
-	names := opNamesOf(doc)
+	names := opNamesOf(doc, r)
 	// steer to the boundary: add a top-level leaf whose cost brings the chosen operation to maxInt+δ
 	if r.Chance(1, 4) && len(gd.Ops) > 0 {
 		c := base
@@ -605,9 +648,11 @@ func (h *harness) handWritten() {
 		{Query: `{ root: n(r: 1, m: ` + big40 + `) { kids: n(r: 0, m: ` + big40 + `) { kids: n(r: 0, m: ` + big40 + `) { free: v(r: 0) t: __typename } } } }`, Default: DefaultCost{R: 1}},
 		{Query: `{ a: n(r: 0, m: ` + strconv.Itoa(maxInt) + `) { b: n(r: 0, m: 2) { c: n(r: 0, m: 0) { ...F } } } } fragment F on N { z x: z y: v(r: 0) }`, Default: DefaultCost{}},
 		// the same fragment at several depths of a multiplier chain
-		{Query: `{ a: n(r: 1, m: 3, c: 7) { ...F b: n(r: 2, m: 5) { ...F c: cm { ...F } } } ...G } fragment F on N { x: cr y: v(r: 2) ...G } fragment G on I { g: v(r: 1) }`, Default: DefaultCost{R: 1}},
+		{Query: `{ a: n(r: 1, m: 3, c: 7) { ...F b: n(r: 2, m: 5) { ...F c: cm { ...F } } } d: i(m: 2) { ...G } } fragment F on N { x: cr y: v(r: 2) ...G } fragment G on I { g: v(r: 1) }`, Default: DefaultCost{R: 1}},
 		// the same fragment twice in a row at different places (the by-name guard must be released)
 		{Query: `{ a: n { ...F } b: n { ...F } c: n { d: n { ...F } } } fragment F on N { x: v(r: 3) }`, Default: DefaultCost{R: 1}},
+		// a fragment that shares its name with the requested operation (separate namespaces)
+		{Query: `query A { x: n(m: 2) { ...A } } fragment A on N { y: v(r: 3) ...B } fragment B on N { z2: v(r: 1) }`, Default: DefaultCost{R: 1}},
 		// operation choice
 		{Query: `query A { a: v(r: 3) } query B { b: v(r: 5) } query C { c: n(m: 4) { d: v(r: 2) } }`, Default: DefaultCost{R: 1}},
 		// default cost with a multiplier and a context
@@ -639,7 +684,7 @@ func (h *harness) handWritten() {
 			h.run.Note("hand-written document does not parse: %s", c.Query)
 			continue
 		}
-		for _, name := range opNamesOf(doc) {
+		for _, name := range opNamesOf(doc, nil) {
 			cc := c
 			cc.OpName = name
 			h.run.Count("hand-written")
@@ -660,6 +705,8 @@ func (h *harness) replayCase(c Case, verbose bool) *failure {
 		return h.executeOne(c, verbose)
 	case "conn":
 		return h.connOne(c, verbose)
+	case "ws":
+		return h.wsOne(c, verbose)
 	default:
 		p, skip := h.prepare(c)
 		if skip != "" {
@@ -725,9 +772,10 @@ func main() {
 
 	h.arithGrid()
 	h.handWritten()
-	h.generated(run.Scale(2600, 60000))
+	h.generated(run.Scale(3000, 60000))
 	h.executePath(run.Scale(250, 4000))
 	h.connections()
+	h.wsPath(run.Scale(60, 600))
 	for _, w := range h.apis {
 		w.close()
 	}
